@@ -52,7 +52,9 @@ func (e *OpEngine) RunTensorEntryChecks(maxLen int) {
 		dims bool
 	}
 	entries := []entry{
-		{"Full", func(e *OpEngine, d interp.Value) []interp.Value { return []interp.Value{d, interp.FloatV{E: sym.SymE("value")}} }, true},
+		{"Full", func(e *OpEngine, d interp.Value) []interp.Value {
+			return []interp.Value{d, interp.FloatV{E: sym.SymE("value")}}
+		}, true},
 		{"Zeros", func(e *OpEngine, d interp.Value) []interp.Value { return []interp.Value{d} }, true},
 		{"Ones", func(e *OpEngine, d interp.Value) []interp.Value { return []interp.Value{d} }, true},
 		{"RandU", func(e *OpEngine, d interp.Value) []interp.Value {
